@@ -249,9 +249,6 @@ func OpKey(name string, args []interface{}) string {
 
 // CallOp is the user-operator seam.
 func (e *Env) CallOp(name string, args []interface{}) (interface{}, error) {
-	if e.Yield != nil {
-		e.Yield("op", name)
-	}
 	spec := e.Ops[name]
 	if spec == nil {
 		panic("sim: call of unknown user operator " + name)
@@ -380,6 +377,12 @@ func (h *OpHost) Operator(name string) eval.Operator {
 			return Mix(spec, args), nil
 		}
 		env := h.envOf(ctx)
+		// the task may be switched out right at operator entry, BEFORE the
+		// arguments are looked at: a parameter buffer the library shares
+		// between evaluations is then overwritten by whoever runs meanwhile
+		if env.Yield != nil {
+			env.Yield("op", name)
+		}
 		args := make([]interface{}, len(params))
 		for i, p := range params {
 			args[i] = p
